@@ -403,6 +403,7 @@ func runC12(e *Engine, r *Report) {
 	// ---- pool discipline
 	c12Pool(e, r)
 	ruleStopBeforeTerminate(e, r)
+	ruleQueueAdmission(e, r)
 }
 
 // c12Detach: the notified request is detached from its table on every path.
